@@ -37,8 +37,8 @@ CHECKS = {
     ),
     "C08": dict(
         title="Netmap history: last N maps retrievable exactly across count changes",
-        quick=dict(groups=[E("exhaustive", "^TestC08Exhaustive$", 12, env=dict(VERIF_KEEP_GOING=1)), G("random", "^TestC08Random$", 60, 4)]),
-        thorough=dict(groups=[E("exhaustive", "^TestC08Exhaustive$", 12, env=dict(VERIF_KEEP_GOING=1)), G("random", "^TestC08Random$", 1500, 16)]),
+        quick=dict(groups=[E("exhaustive", "^TestC08Exhaustive$", 12, env=dict(VERIF_KEEP_GOING=1)), G("random", "^TestC08Random$", 60, 4), E("long-run", "^TestC08LongRun$", 1)]),
+        thorough=dict(groups=[E("exhaustive", "^TestC08Exhaustive$", 12, env=dict(VERIF_KEEP_GOING=1)), G("random", "^TestC08Random$", 1500, 16), E("long-run", "^TestC08LongRun$", 2)]),
     ),
     "C07": dict(
         title="Netmap candidates follow the add/update/remove state machine in both lists",
